@@ -100,7 +100,8 @@ def run(rep, tier, seed):
                               "kind the state does not expect", base)
             else:
                 import re as _re
-                norm = _re.sub(r"'[^']*'", "'_'", _re.sub(r"[0-9]+", "N", msg))[:80].replace(" ", "_")
+                norm = _re.sub(r"`.*$", "`_`", msg.split("\n")[0], flags=_re.S)      # drop the quoted input text
+                norm = _re.sub(r"'[^']*'", "'_'", _re.sub(r"[0-9]+", "N", norm))[:80].replace(" ", "_")
                 rep.violation("panic:" + norm, "parser panicked", base)
         else:
             if algo == "LR" and acyclic is False:
